@@ -299,6 +299,10 @@ impl<'a> Emit<'a> {
         self.arena.aff_cache.borrow().get(&id).unwrap().clone()
     }
 
+    fn is_rat_atom(&self, id: u32) -> bool {
+        matches!(self.arena.nodes[id as usize], Node::Rat(_, _))
+    }
+
     fn visit_node(&mut self, id: u32) {
         let mut work = vec![id];
         while let Some(n) = work.pop() {
@@ -334,7 +338,13 @@ impl<'a> Emit<'a> {
                         match op {
                             B::Min | B::Max => {}
                             B::Div => {
-                                if !self.aff(*y).is_const() {
+                                if !self.aff(*y).is_const() && !self.is_rat_atom(*y) {
+                                    self.nonlinear = true;
+                                }
+                            }
+                            B::Mul => {
+                                // a non-dyadic exact rational times a term is still linear
+                                if !self.is_rat_atom(*x) && !self.is_rat_atom(*y) {
                                     self.nonlinear = true;
                                 }
                             }
@@ -501,7 +511,11 @@ impl<'a> Emit<'a> {
             if self.need_atoms.contains(&n) {
                 let node = &self.arena.nodes[n as usize];
                 match node {
-                    Node::Const(_) | Node::Rat(_, _) | Node::Var(_) => continue,
+                    Node::Rat(p, q) => {
+                        writeln!(s, "(define-fun n{} () Real {})", n, rat_lit(*p, *q)).unwrap();
+                        continue;
+                    }
+                    Node::Const(_) | Node::Var(_) => continue,
                     _ => {}
                 }
                 writeln!(s, "(declare-const n{} Real)", n).unwrap();
